@@ -140,7 +140,7 @@ func gen(g *hx.Gen) {
 	emit := func(c sauth.Cfg, reqs []sauth.Req) { g.Emit("%s", sauth.Finish(c, reqs)) }
 
 	// (1) failure accounting: histories of failing / free / partial / query requests around the limit
-	n1 := g.Count(3000, 100000)
+	n1 := g.Count(3000, 70000)
 	for i := 0; i < n1; i++ {
 		c := sauth.RandCfg(r, true)
 		c.MaxTries = r.PickInt(-1, 0, 1, 2, 3, 6)
@@ -244,7 +244,7 @@ func gen(g *hx.Gen) {
 	}
 
 	// (4) source-address: random option values on every permissions id × random peers
-	n4 := g.Count(4000, 100000)
+	n4 := g.Count(4000, 70000)
 	for i := 0; i < n4; i++ {
 		c := sauth.RandCfg(r, true)
 		c.Addr = randAddr(r)
